@@ -22,6 +22,7 @@ const (
 	c08PathRelay  = "gno.land/r/vic/relay"
 	c08PathPayout = "gno.land/r/vic/payout"
 	c08PathMint   = "gno.land/r/vic/mint"
+	c08PathMid    = "gno.land/r/vic/mid"
 	c08VTok       = "/" + c08PathMint + ":vtok"
 	c08SubPath    = "s"
 )
@@ -43,6 +44,7 @@ const (
 	aA1Sub
 	aStorFeeColl
 	aRelayDep
+	aMid
 	aNumConst
 	aRXAddr  = 20 // <realm expression>.Address()
 	aCurAddr = 21 // cur.Address()
@@ -71,7 +73,8 @@ func c08NewWorld() *c08World {
 	w.addr[aA1Sub] = gnolang.DerivePkgCryptoAddr(c08PathA1 + "#" + c08SubPath)
 	w.addr[aStorFeeColl] = crypto.AddressFromPreimage([]byte("storage_fee_collector"))
 	w.addr[aRelayDep] = gnolang.DeriveStorageDepositCryptoAddr(c08PathRelay)
-	w.realms = []string{c08PathHook, c08PathA1, c08PathVault, c08PathRelay, c08PathPayout, c08PathMint}
+	w.addr[aMid] = gnolang.DerivePkgCryptoAddr(c08PathMid)
+	w.realms = []string{c08PathHook, c08PathA1, c08PathVault, c08PathRelay, c08PathPayout, c08PathMint, c08PathMid}
 	return w
 }
 
@@ -87,7 +90,7 @@ func (w *c08World) attackerOwned(a crypto.Address) bool {
 }
 
 func (w *c08World) name(a crypto.Address) string {
-	names := []string{"attUser", "vicUser", "admin", "vault", "vaultDeposit", "a1Deposit", "feeCollector", "relay", "payout", "mint", "a1", "hook", "a1#s", "storageFeeCollector", "relayDeposit"}
+	names := []string{"attUser", "vicUser", "admin", "vault", "vaultDeposit", "a1Deposit", "feeCollector", "relay", "payout", "mint", "a1", "hook", "a1#s", "storageFeeCollector", "relayDeposit", "mid"}
 	for i, x := range w.addr {
 		if x == a {
 			return names[i]
@@ -121,6 +124,7 @@ import (
 	"chain/runtime/unsafe"
 
 	"` + c08PathHook + `"
+	"` + c08PathMid + `"
 )
 
 var Got int64
@@ -137,6 +141,12 @@ func Deposit(cur realm) int64 {
 func Poke(cur realm, n int) {
 	Got++
 	hook.Hook(cross(cur), n)
+}
+
+// PokeVia reaches the untrusted realm through an innocent intermediate realm.
+func PokeVia(cur realm, n int) {
+	Got++
+	mid.Pass(cross(cur), n)
 }
 
 // Visit and VisitI run caller-supplied code inside the vault's frame.
@@ -165,6 +175,21 @@ func Shrink(cur realm, n int) int {
 	copy(nl, Log)
 	Log = nl
 	return len(Log)
+}
+`
+}
+
+// mid holds coins of its own and merely forwards calls.
+func (w *c08World) srcMid() string {
+	return `package mid
+
+import "` + c08PathHook + `"
+
+var Passed int
+
+func Pass(cur realm, n int) {
+	Passed++
+	hook.Hook(cross(cur), n)
 }
 `
 }
@@ -262,6 +287,44 @@ type c08Stmt struct {
 	Den   int   `json:"den"`   // denom index
 	Amt   int64 `json:"amt"`   // amount; 0 = whole balance of From
 	Twice bool  `json:"twice"` // repeat the operation
+	// Forge > 0: the realm expression RX is first made the argument of a
+	// cur-call into a local crossing function (route = Forge), and the banker
+	// is built there from that function's own `cur`.
+	Forge int `json:"forge,omitempty"`
+	Inner int `json:"inner,omitempty"` // forged frame: 0 banker on cur, 1 banker on cur.Sub("s"), 2 cross-call a gated victim as cur
+}
+
+// Routes by which a realm value reaches the `cur` argument of a cur-call.
+const (
+	fgNone = iota
+	fgAssign
+	fgTuple
+	fgPointer
+	fgClosure
+	fgHelperPtr
+	fgSwap
+	fgMethod
+	fgFuncVar
+	fgFuncLit
+	fgDefer
+	fgDeferClosure
+	fgInline // rebinding only, no cur-call
+	fgNestedCall
+	fgNum
+)
+
+var c08ForgeNames = []string{"none", "assign", "tuple", "pointer", "closure", "helper-ptr", "swap", "method-callee", "func-var", "crossing-funclit", "defer-callee", "deferred-closure", "rebind-no-curcall", "curcall-in-closure"}
+
+// c08KnownForged is the key of the confirmed finding: a crossing function's
+// `cur` parameter is assignable, and the frame entered by a cur-call takes its
+// Cur from the rebound slot.
+const c08KnownForged = "forged-cur-by-rebinding-crossing-parameter"
+
+// rebindsCurSlot reports whether the route puts the foreign realm value into a
+// `cur` parameter slot and hands it to a cur-call (the shape the key covers).
+func c08RebindsCurSlot(route int) bool {
+	route %= fgNum
+	return route != fgNone && route != fgInline
 }
 
 var c08RXNames = []string{"cur", "cur.Previous()", "cur.Previous().Previous()", "outer", `cur.Sub("s")`, `cur.Previous().Sub("s")`}
@@ -317,16 +380,21 @@ func c08Denom(i int, self string) string {
 		return "/" + c08PathVault + ":tok"
 	case 10:
 		return "/" + self + ":tok:" + "vtok"
+	case 11:
+		return "/" + c08PathMid + ":tok"
 	}
 	return "ugnot"
 }
 
-const c08NumDenoms = 11
+const c08NumDenoms = 12
 
 // foreign reports whether the statement reaches for coins, denoms or realm
 // identities that are not the executing realm's own.
 func (w *c08World) foreign(s c08Stmt, selfIdx int) bool {
 	if s.RX != 0 && s.RX != 4 {
+		return true
+	}
+	if s.Forge%fgNum != fgNone && s.Inner%3 == 2 {
 		return true
 	}
 	switch s.Op {
@@ -341,12 +409,126 @@ func (w *c08World) foreign(s c08Stmt, selfIdx int) bool {
 type c08Render struct {
 	w       *c08World
 	imports map[string]bool
+	decls   strings.Builder // top-level declarations needed by forged cur-calls
+	nfg     int
+	setp    bool
 }
 
-// stmt renders the statement as Gno code for a body that has `cur realm` (and
+// stmt renders the statement; with Forge > 0 the realm expression first travels
+// into the `cur` argument of a cur-call by the chosen route, and the coin-moving
+// code runs in the callee on its own `cur`.
+func (r *c08Render) stmt(s c08Stmt, self string, hasOuter, partner bool, indent string) string {
+	route := s.Forge % fgNum
+	if route == fgNone {
+		return r.plain(s, self, hasOuter, partner, indent)
+	}
+	x := s.rx(hasOuter)
+	inner := s
+	inner.Forge, inner.RX = 0, 0
+	if s.Inner%3 == 1 {
+		inner.RX = 4 // cur.Sub("s") of the forged identity
+	}
+	body := func(ind string) string {
+		if s.Inner%3 == 2 {
+			to := r.w.addrExpr(s.To, "cur")
+			amt := s.Amt
+			if amt <= 0 || amt > 1_000_000 {
+				amt = 1000
+			}
+			switch s.Op % 3 {
+			case 0:
+				r.imports[c08PathPayout] = true
+				return fmt.Sprintf("%spayout.Payout(cross(cur), %s, %d)\n", ind, to, amt)
+			case 1:
+				r.imports[c08PathMint] = true
+				return fmt.Sprintf("%smint.MintTo(cross(cur), %s, %d)\n", ind, to, amt)
+			default:
+				r.imports[c08PathMint] = true
+				return fmt.Sprintf("%smint.BurnFrom(cross(cur), %s, %d)\n", ind, r.w.addrExpr(aVicUser, "cur"), amt)
+			}
+		}
+		return r.plain(inner, self, false, partner, ind)
+	}
+	r.nfg++
+	f := fmt.Sprintf("fg%d", r.nfg)
+	declare := func() {
+		fmt.Fprintf(&r.decls, "func %s(cur realm) {\n%s}\n\n", f, body("\t"))
+	}
+	var sb strings.Builder
+	p := func(format string, a ...any) { sb.WriteString(indent + fmt.Sprintf(format, a...) + "\n") }
+	switch route {
+	case fgAssign:
+		declare()
+		p("cur = %s", x)
+		p("%s(cur)", f)
+	case fgTuple:
+		declare()
+		p("var fgn int")
+		p("cur, fgn = %s, 1", x)
+		p("_ = fgn")
+		p("%s(cur)", f)
+	case fgPointer:
+		declare()
+		p("fgp := &cur")
+		p("*fgp = %s", x)
+		p("%s(cur)", f)
+	case fgClosure:
+		declare()
+		p("func() { cur = %s }()", x)
+		p("%s(cur)", f)
+	case fgHelperPtr:
+		declare()
+		if !r.setp {
+			r.setp = true
+			r.decls.WriteString("func fgset(p *realm, v realm) { *p = v }\n\n")
+		}
+		p("fgset(&cur, %s)", x)
+		p("%s(cur)", f)
+	case fgSwap:
+		declare()
+		p("fgprev := %s", x)
+		p("cur, fgprev = fgprev, cur")
+		p("_ = fgprev")
+		p("%s(cur)", f)
+	case fgMethod:
+		fmt.Fprintf(&r.decls, "type %sT struct{}\n\nfunc (%sT) run(cur realm) {\n%s}\n\n", f, f, body("\t"))
+		p("cur = %s", x)
+		p("%sT{}.run(cur)", f)
+	case fgFuncVar:
+		declare()
+		p("fgf := %s", f)
+		p("cur = %s", x)
+		p("fgf(cur)")
+	case fgFuncLit:
+		p("cur = %s", x)
+		p("func(cur realm) {")
+		sb.WriteString(body(indent + "\t"))
+		p("}(cur)")
+	case fgDefer:
+		declare()
+		p("cur = %s", x)
+		p("defer %s(cur)", f)
+	case fgDeferClosure:
+		declare()
+		p("defer func() {")
+		p("\tcur = %s", x)
+		p("\t%s(cur)", f)
+		p("}()")
+	case fgInline:
+		p("cur = %s", x)
+		sb.WriteString(body(indent))
+	case fgNestedCall:
+		declare()
+		p("cur = %s", x)
+		p("func() { %s(cur) }()", f)
+	}
+	return sb.String()
+}
+
+// plain renders the statement as Gno code for a body that has `cur realm` (and
 // optionally `outer realm`) in scope. self is the executing realm's pkgpath;
 // partner says whether hook.Use is reachable from here.
-func (r *c08Render) stmt(s c08Stmt, self string, hasOuter, partner bool, indent string) string {
+func (r *c08Render) plain(s c08Stmt, self string, hasOuter, partner bool, indent string) string {
 	r.imports["chain/banker"] = true
 	rx := s.rx(hasOuter)
 	from := r.w.addrExpr(s.From, rx)
